@@ -886,6 +886,44 @@ fn main() {
         }
     }));
     let args: Vec<String> = std::env::args().skip(1).collect();
+    // hang watchdog: a library call that does not return within 20 s is a violation of
+    // "every call returns" (C02), of "valid calls succeed" (C05) and of the op's own property
+    {
+        let prop = arg(&args, "--prop").unwrap_or_default();
+        let args2 = args.clone();
+        std::thread::spawn(move || loop {
+            std::thread::sleep(Duration::from_millis(500));
+            for slot in explore::watch_slots() {
+                let g = slot.lock().unwrap();
+                if let Some(w) = g.as_ref() {
+                    if w.since.elapsed() > Duration::from_secs(20) {
+                        let opk = w.op.map(|o| o.kind()).unwrap_or("?");
+                        let hang_props = ["C02", "C05", match opk { "remove" | "remove_subtree" => "C04", "new_node" | "tree_leaf" | "tree_nest" => "C07", "write" => "C08", "clear" | "reserve" => "C13", _ => "C03" }];
+                        let _ = std::fs::create_dir_all(format!("{VERIF}/replays"));
+                        let path = format!("{VERIF}/replays/{}-hang.json", prop);
+                        let j = json!({"property": prop, "signature": format!("watchdog|{opk}|-|call-does-not-return"),
+                            "init": w.init, "ops": w.path.iter().map(|o| o.text()).collect::<Vec<_>>(), "failing_op": w.op.map(|o| o.text()),
+                            "arena_before_the_call": w.arena, "detail": "the library call did not return within 20 s"});
+                        let _ = std::fs::write(&path, serde_json::to_string_pretty(&j).unwrap());
+                        if hang_props.contains(&prop.as_str()) {
+                            if let Some(ev) = arg(&args2, "--evidence") {
+                                write_json(&ev, &json!({
+                                    "property_id": prop, "tier": arg(&args2, "--tier").unwrap_or("quick".into()), "seed": seed() as i64, "level": "model_checking",
+                                    "coverage": {"states": 1, "transitions": 1, "traces_validated_against_impl": 0, "exhaustive": false,
+                                        "samples": [j.clone()], "explanation": "the exploration was aborted by the watchdog: a library call did not return"},
+                                    "assumptions": [], "wall_s": 20.0, "violations": 1}));
+                            }
+                            println!("VIOLATION property={} replay={}", prop, path);
+                            println!("  history  : {} {}\n  then     : {} does not return (20 s)", w.init, w.path.iter().map(|o| o.text()).collect::<Vec<_>>().join("; "), w.op.map(|o| o.text()).unwrap_or_default());
+                            std::process::exit(1);
+                        }
+                        eprintln!("MACHINERY-ERROR: a library call hangs ({}; see {path}); property {prop} cannot be decided on this tree — the checks of C02/C05 report it", w.op.map(|o| o.text()).unwrap_or_default());
+                        std::process::exit(2);
+                    }
+                }
+            }
+        });
+    }
     let code = match args.first().map(|s| s.as_str()) {
         Some("sweep") => {
             let r = std::panic::catch_unwind(|| cmd_sweep(&args));
